@@ -68,7 +68,7 @@ pub(crate) fn run(opts: &Opts, report: &mut Report) {
     let seeds: Vec<u64> = if thorough { (0..20).collect() } else { vec![0, 1, 2] };
     let mut cases: Vec<Case> = vec![];
     for &last_n in &last_ns {
-        let mut gaps: Vec<u64> = vec![1, last_n.max(2) - 1, last_n, last_n + 1, 2 * last_n, 2 * last_n + 1, 1000, 1 << 32, 1 << 63];
+        let mut gaps: Vec<u64> = vec![1, last_n.max(2) - 1, last_n, last_n + 1, last_n + 2, last_n + last_n / 2, 2 * last_n - 1, 2 * last_n, 2 * last_n + 1, 1000, 1 << 32, 1 << 63];
         if thorough {
             gaps.extend([3 * last_n + 1, 10 * last_n, 65536, 1 << 48]);
         }
@@ -385,6 +385,11 @@ pub(crate) fn run(opts: &Opts, report: &mut Report) {
                 sampled_requests += 1;
                 if r_start != s_num || req.start_hash() != s_hash {
                     fail("start-hash", "sampled request does not start at the proven / stored tip".to_owned());
+                }
+                // (the bound may be missed by one through rounding, but never down to nothing:
+                // more than last-N blocks are unknown, so at least one draw is needed)
+                if draws == 0 {
+                    fail("no-samples-for-a-gap-beyond-last-n", format!("no sample drawn although {} blocks are missing and only the last {} are requested in full", case.gap, case.last_n));
                 }
                 if draws + 1 < need {
                     fail("too-few-samples", format!("{} draws, FlyClient bound needs {} (m = {}, last_n = {}, gap = {})", draws, need, m, case.last_n, case.gap));
